@@ -171,6 +171,7 @@ PROPS = {
         "level": "exploration",
         "units": [
             R("h26", "c08", "TestC08_Scripts", (4000, 8, 400), (300000, 16, 10000)),
+            R("h26", "c08", "TestC08_LongSync", (600, 4, 400), (40000, 16, 10000)),
         ],
     },
     "C14": {
